@@ -165,7 +165,7 @@ Fixpoint beval_impl (e : env) (b : bexpr) : res Z :=
 (** * Expressions: specification (ordinary arithmetic)                                               *)
 (* ------------------------------------------------------------------------------------------------ *)
 (* Division and remainder: floor convention (equal to the C convention on non-negative operands, see
-   Proofs: div_floor_is_trunc_nonneg); undefined for a zero divisor.  Shifts by a negative count are undefined. *)
+   Proofs: division_is_c_division_on_naturals); undefined for a zero divisor.  Shifts by a negative count are undefined. *)
 Definition spec_binop (o : binop) (a b : Z) : option Z :=
   match o with
   | Add => Some (a + b) | Sub => Some (a - b) | Mul => Some (a * b)
@@ -214,7 +214,7 @@ Fixpoint beval_spec (e : env) (b : bexpr) : option Z :=
   end.
 
 (* ------------------------------------------------------------------------------------------------ *)
-(** * Precedence: the documented table, a precedence parser over the extracted table, a printer      *)
+(** * Precedence: the C table, a precedence parser over the extracted table, a printer               *)
 (* ------------------------------------------------------------------------------------------------ *)
 (* C operator precedence of the operators of the language (comment "Operators precedence" of the parser; the
    grammar of elf2sb.md itself is ambiguous): level numbers, higher binds tighter; all binary operators associate left *)
@@ -248,8 +248,8 @@ Definition lvl (o : binop) : nat := prec_level precedence (binop_text o).
 (* yacc: a rule without %prec takes the precedence of its last terminal; for `MINUS expr` / `PLUS expr` that is
    the additive level, so a sign extends over following * / % operators but not over + - *)
 Definition unary_lvl : nat := prec_level precedence "-".
-(* PERIOD is not in the precedence tuple: sly (like PLY) gives such a token level 0, below every rule, so on
-   `expr OP expr . PERIOD` the parser reduces first: the size suffix applies to the whole expression read so far *)
+(* level of PERIOD in the precedence tuple: the row above * / % makes the suffix bind tightest.  (A token that is not in the
+   tuple gets level 0 from sly, below every rule: the suffix would then apply to the whole expression read so far.) *)
 Definition size_lvl : nat := prec_level precedence ".".
 
 Inductive token :=
